@@ -50,6 +50,12 @@ CHECKS = {
  "C15": ("exploration", "table monitor over completely enumerated finite domains + injectivity invariant + ordering monitor over permutations (sort() and on-disk discovery)",
          "All race/tribe/gender triples, all file-name tuples and (thorough) all equipment ids x slots x triples and all permutations of all subsets up to 7 repositories are enumerated through the real functions and compared with independent tables; the finite parts are exhaustive, the cross-check with patch-side names and discovery orders is sampled.",
          "race-code table and naming conventions of the retail client are trusted"),
+ "C17": ("fault_enumeration", "panic / abort / CPU / allocation / residual-heap monitors inside the worker over enumerated faults of valid files; Err-on-partial-failure monitor for patches (prefixes, unwritable targets, strace-injected EIO/ENOSPC at every I/O step)",
+         "Every truncation point and every single-field corruption (several widths, endiannesses and boundary values) of valid seeds of each user/launcher format is executed against the real entry point under in-process monitors; patches additionally under I/O fault sequences. A finite run restates 'never runs unboundedly / out of proportion' as CPU and allocation budgets.",
+         "budgets as stated in DESIGN 3.2/3.3; crash sites identified by source line text"),
+ "C18": ("fault_enumeration", "panic / abort / CPU / allocation / residual-heap monitors + ASan/LSan over enumerated faults of valid generated assets and archives; fault sequences on live GameData handles",
+         "Valid instances of every asset format produced by the independent builders are damaged field by field and prefix by prefix so that the arithmetic behind the magic checks runs on hostile values; archives are damaged between open and read on live handles; the allocator monitor and LSan decide the no-leak clause for failed decompression. Parser-wide crash sites that are not repaired are listed known findings keyed by site.",
+         "budgets as stated in DESIGN 3.2/3.3; known findings in known_findings.json"),
  "C12": ("exploration", "reference-model monitor (zlib.crc32 / bitwise CRC / hashlib.sha1) over recorded hash calls",
          "Every recorded hash call of the real library is compared with two independent implementations; held on tens of thousands of strings over all ASCII code points and lengths 0..4096 and on files of every length 0..300 plus all SHA-1 padding boundaries up to 4 MiB. Exploration is the right level: the input space is unbounded and the oracle is exact.",
          "Python zlib/hashlib are trusted; ASCII paths only"),
